@@ -13,7 +13,8 @@ RULE = ('same campaign as C01 with a pass-heavy mix (three opening passes then a
         '4th seat re-opening); after FINISHED further calls are offered and the whole observable state must stay frozen. '
         'distinct = distinct (dealer, vul, accepted history, offered call).')
 REQUIRED_COUNTERS = {t: ['three_passes_then_bid', 'fourth_seat_reopens', 'passed_out', 'has_double'] for t in ('quick', 'thorough')}
-TRUSTED = []
+TRUSTED = ['the MiniPy semantics (Model/MiniPy.lean: value semantics, no aliasing) and the code translator (harness/translate_py.py), validated on every run by executing the translated program next to the real code (counters translated_*)',
+           ]
 ASSUMPTIONS = ['CPython list/dict semantics']
 
 
